@@ -442,7 +442,7 @@ def main(tier, replay):
     mc_futs = [pool.submit(mc, v) for v in VARIANTS]
 
     # 3. random executions: started now, in worker processes -----------------------------
-    cases = random_cases(rng, 800 if thorough else 160, thorough)
+    cases = random_cases(rng, 2000 if thorough else 160, thorough)
     ex = Executions(min(6, max(2, C.NCPU // 2)) if thorough else 4)
     big_job = ex.submit(cases)
     mc_runs = dict(zip(VARIANTS, [f.result() for f in mc_futs]))
